@@ -63,3 +63,11 @@ def run(ctx):
     probe.known = []
     b, m = check_pairs(probe, st, 'st', select=None)
     ctx.selftest('round-trip rule detects a decoder that maps RightMark to LeftMark', b >= 1)
+    SPL = 'dfscan_selftest::protos::lp::'
+    n0 = len(probe.viol)
+    protocov.check_encoder_reads(probe, 'Plan', SPL + 'encode', SPL + 'Plan', rule='st-src', exempt={})
+    protocov.oneof_roundtrip(probe, SPL + 'Plan', SPL + 'encode', SPL + 'decode', SPL + 'Wire', rule='st-oneof')
+    keys = sorted(v['key'] for v in probe.viol[n0:])
+    ctx.selftest('source-struct coverage reports a plan field the encoder never reads (Scan.fetch, not Sort.*) and the oneof round trip reports a decode arm that '
+                 'builds another variant through a constructor passed as a function item (IsFalse -> IsTrue)',
+                 keys == ['st-oneof|IsFalse -> IsFalse', 'st-src|Scan.fetch'])
